@@ -22,6 +22,12 @@ def _diag_config(sess, spec):
             conf["node"][key] = dict(attrs)
     for key, attrs in spec.get("cluster", {}).items():
         conf["cluster"][key] = dict(attrs)
+    rm = spec.get("__remove__")
+    if rm:
+        sect, key = rm
+        target = conf["node"]["default"] if sect == "node" else conf[sect]
+        if target.pop(key, None) is not None:
+            sess.stats["config_without_a_default_key"] += 1
     return conf
 
 
@@ -182,6 +188,21 @@ def apply_restart(sess, op):
                 sess.fail("C12", "newer-version-refused", "file with version %s loaded: %s" % (skew["version"], _short(r)))
             if skew["dir"] == "older" and r[0] != "ok":
                 sess.fail("C12", "older-version-loads", "file with version %s refused: %s" % (skew["version"], _short(r)))
+    if op.get("old_format") and "C12" not in sess.enabled:
+        # a file of the first format: no 'groups' and 'rails' sections; the
+        # documented result is the same system with no groups and no rails
+        doc = json.loads(w.disk.files["restart.json"])
+        doc["system"].pop("groups", None)
+        doc["system"].pop("rails", None)
+        doc["system"]["version"] = "1.0.0"
+        w.disk.files["restart.json"] = json.dumps(doc, indent=4)
+        m = sess.model
+        if any(m.groups.values()) or any(m.rails.values()):
+            sess.twin_lost = True
+        for n in m.order:
+            m.groups[n] = ""
+            m.rails[n] = ""
+        sess.stats["fault_fired:old_format_file"] += 1
     r = sess._guard(lambda: S.System.from_file("restart.json"))
     sess.outcomes.append("ok" if r[0] == "ok" else "exc:" + r[1])
     sess.interleave.append(("restart", r[0]))
@@ -270,6 +291,13 @@ def apply_observe(sess, op):
         table = O.Table(r[1])
         if sess.gen is not None and table.phases:
             sess.gen.last_table = table.comp[table.phases[0]]
+        if "phase" not in kw and m.phases_coherent() and table.phases != m.phase_list():
+            # the table is organised by other phases than the ones defined: none
+            # of the per-phase clauses can be evaluated
+            tag = next((p_ for p_ in ("C06", "C16", "C07", "C01", "C02", "C04", "C05", "C08", "C09", "C03") if p_ in E), None)
+            if tag:
+                sess.fail(tag, "reports-exactly-the-defined-phases", "table phases %s, defined phases %s" % (table.phases, m.phase_list()))
+            return
         out = checks._Out()
         tol = checks.Tol(vt, it, atol=sess.tol_atol)
         if "C03" in E:
